@@ -198,6 +198,37 @@ def lean_str(s):
     return "String.ofList " + lean_chars(s)
 
 
+def diag_labels():
+    """Error variant -> first diagnostic line printed by main.rs::handle_error (the ErrMsg title or the
+    `error: ...` line of its arm; the thiserror Display text when the variant has no arm of its own)."""
+    lib = read("src/lib.rs")
+    m = re.search(r"pub enum Error \{(.*?)\n\}", lib, re.S)
+    if not m:
+        raise Refuse("lib.rs: enum Error not found")
+    variants = re.findall(r'#\[error\("((?:[^"\\]|\\.)*)"[^\]]*\)\]\s*(\w+)', m.group(1))
+    if len(variants) < 10:
+        raise Refuse("lib.rs: fewer Error variants than expected")
+    main = read("src/main.rs")
+    body = fn_body(main, r"fn handle_error\(", "handle_error")
+    arms = list(re.finditer(r"\n        Error::(\w+)", body))
+    out = []
+    for text, name in variants:
+        label = None
+        for k, a in enumerate(arms):
+            if a.group(1) == name:
+                end = arms[k + 1].start() if k + 1 < len(arms) else len(body)
+                arm = body[a.start():end]
+                m1 = re.search(r'ErrMsg::new\("((?:[^"\\]|\\.)*)"\)', arm)
+                m2 = re.search(r'eprintln!\("(error: [^"]*)"\)', arm)
+                cands = [x for x in (m1, m2) if x]
+                if cands:
+                    label = min(cands, key=lambda x: x.start()).group(1)
+        if label is None:
+            label = text
+        out.append((name, label))
+    return out
+
+
 def lean_chain(chain):
     return "[" + ", ".join(f"({lean_char(p)}, {lean_chars(r)})" for p, r in chain) + "]"
 
@@ -219,7 +250,19 @@ def generate():
     tchars, escapable = terminal_class()
     builtins = builtin_table()
 
+    labels = diag_labels()
     os.makedirs(OUT, exist_ok=True)
+    out = []
+    out.append("/- GENERATED by tools/translate.py from /repo on every run. Do not edit. -/")
+    out.append("namespace Complgen.Gen")
+    out.append("/-- Error variant (lib.rs) -> the first diagnostic line main.rs::handle_error prints for it -/")
+    out.append("def diagLabels : List (String × String) := [")
+    out.append(",\n".join(f"  ({lean_str(n)}, {lean_str(l)})" for n, l in labels))
+    out.append("]")
+    for n, l in labels:
+        out.append(f"-- {n}: {show(l)}")
+    out.append("end Complgen.Gen")
+    write("Diag.lean", "\n".join(out) + "\n")
     out = []
     out.append("/- GENERATED by tools/translate.py from /repo on every run. Do not edit. -/")
     out.append("import Complgen.Model.Quote")
